@@ -9,7 +9,7 @@ Space
                such as keyword-after-dot).  An abstract tree is instantiated with the alphabet
                (IDS[o], IDS[o+1], IDS[o+2], IDS[o+3]) for offsets o: trees with <= 3 leaves get EVERY offset (so every
                identifier occurs at every leaf of every such tree), 4-leaf trees get `alphabets4` offsets that rotate with
-               the tree number and the seed (quick 12, thorough 27); 3-leaf trees: every second offset in the quick tier.
+               the tree number and the seed (quick 12, thorough 46); 3-leaf trees: every second offset in the quick tier.
   spellings  : and in {and, AND, &} x or in {or, OR, |} x parentheses in {minimal, every operator node, redundant (doubled,
                leaves too)} x blanks in {single, extra (several blanks, blanks inside parentheses, leading/trailing), tight
                (no blanks around & | and parentheses)} = 81, deduplicated by text; 4-leaf trees use a rotating orthogonal
@@ -652,7 +652,7 @@ def run(tier: str, seed: int) -> dict:
     thorough = tier == "thorough"
     N = len(IDS)
     rng = random.Random(seed)
-    alphabets4 = 27 if thorough else 12
+    alphabets4 = 46 if thorough else 12
     # ---- rule instances: (n_leaves, tree index, alphabet offset, spelling third or -1 for all 81, compare all variants with ==)
     jobs = []
     for nl in (1, 2):
